@@ -45,7 +45,7 @@ MUTANTS = {
     'c15_expansion_rewrites_memo': ('C15', ['expansion-changes-affiliate-only'], [
         ('src/portfolio/splits.rs', '                new_split.affiliate = affiliate.clone();', '                new_split.affiliate = affiliate.clone();\n                new_split.read_index = 0;')]),
     'c15_backward_scan_ignores_split': ('C15', ['both-window-scans-apply-splits'], [
-        ('src/portfolio/bookkeeping/superficial_loss.rs', '            TxActionSpecifics::Split(split) => {\n                // Adjustment goes forwards in time for txs before the sale.\n                let new_split_adjustment =\n                    split_adjustment * split.ratio.pre_to_post_factor();\n                af_split_adjustments.insert(before_tx_affil, new_split_adjustment);\n            }\n            // ignored\n            TxActionSpecifics::Sell(_)',
+        ('src/portfolio/bookkeeping/superficial_loss.rs', '            TxActionSpecifics::Split(split) => {\n                // Adjustment goes forwards in time for txs before the sale.\n                let new_split_adjustment = split_adjustment\n                    * split.ratio.post_split\n                    / split.ratio.pre_split;\n                af_split_adjustments.insert(before_tx_affil, new_split_adjustment);\n            }\n            // ignored\n            TxActionSpecifics::Sell(_)',
          '            // ignored\n            TxActionSpecifics::Split(_)\n            | TxActionSpecifics::Sell(_)')]),
     # ------------------------------------------------------------------ C10
     'c10_boundary_le': ('C10', ['window-boundary'], [
@@ -112,6 +112,8 @@ MUTANTS = {
     'c04_split_factor_first': ('C04', ['R4e|split-balance-exact-when-whole'], [
         ('src/portfolio/bookkeeping/delta_list.rs', '            new_share_balance = (pre_tx_status.share_balance\n                * split_specs.ratio.post_split.into())\n            .div(split_specs.ratio.pre_split);',
          '            new_share_balance = pre_tx_status.share_balance\n                * split_specs.ratio.pre_to_post_factor().into();')]),
+    'c04_split_adjustment_by_rounded_factor': ('C04', ['R4f|portfolio::bookkeeping::superficial_loss::get_superficial_loss_info'], [
+        ('src/portfolio/bookkeeping/superficial_loss.rs', '                let new_split_adjustment = split_adjustment\n                    * split.ratio.pre_split\n                    / split.ratio.post_split;', '                let new_split_adjustment =\n                    split_adjustment / split.ratio.pre_to_post_factor();')]),
     # ------------------------------------------------------------------ C05
     'c05_exact_decimal_assert': ('C05', ['R5d|portfolio::bookkeeping::portfolio_status::AffiliatePortfolioSecurityStatuses::set_latest_post_status'], [
         ('src/portfolio/bookkeeping/portfolio_status.rs', '        assert!(all_share_bal_diff < rust_decimal_macros::dec!(0.0000000001),', '        assert!(all_share_bal_diff == rust_decimal::Decimal::ZERO,')]),
